@@ -236,6 +236,9 @@ Definition stacked_props (m : mm) (n : text) : list prop := payloads (i_props (i
 Definition inherited_props (m : mm) (n : text) : list prop := payloads (i_inh_props (info_of m n)).
 Definition inherited_methods (m : mm) (n : text) : list text := i_inh_methods (info_of m n).
 Definition stacked_invs (m : mm) (n : text) : list text := payloads (i_invs (info_of m n)).
+(** methods of all ancestors and own ones; NOT de-duplicated: the front end refuses to
+    inherit a method along two paths ("diamond inheritance" of methods) *)
+Definition stacked_methods (m : mm) (n : text) : list text := i_methods (info_of m n).
 
 (** * Names *)
 
@@ -373,12 +376,19 @@ Definition PatternOk (p : text) : Prop :=
 Definition R_patterns (m : mm) : Prop :=
   forall f p, In f (funs m) -> f_pattern f = Some p -> PatternOk p.
 
+(** unique member names of a class *including the inherited ones*: two unrelated parents
+    must not bring a property (or a method) of the same name; the same property reaching a
+    class along two paths of a diamond counts once (identity), a method does not *)
+Definition R_stacked_unique (m : mm) : Prop :=
+  forall c, In c (classes m) ->
+    NoDup (map p_name (stacked_props m (c_name c))) /\ NoDup (stacked_methods m (c_name c)).
+
 Definition Rules (r : reserved) (m : mm) : Prop :=
   R_types_unique m /\ R_bases_exist m /\ R_acyclic m
   /\ R_types_free r m /\ R_members_unique m /\ R_members_free r m
   /\ R_consts_unique m /\ R_consts_free r m /\ R_funs_unique m /\ R_funs_free r m
   /\ R_no_redeclare m /\ R_ctor m /\ R_shapes m /\ R_invs_unique m
-  /\ R_refs m /\ R_patterns m.
+  /\ R_refs m /\ R_patterns m /\ R_stacked_unique m.
 
 (** * The rules, executably *)
 
@@ -461,12 +471,16 @@ Definition pattern_okb (p : text) : bool :=
 Definition patternsb (m : mm) : bool :=
   forallb (fun f => match f_pattern f with Some p => pattern_okb p | None => true end) (funs m).
 
+Definition stacked_uniqueb (m : mm) : bool :=
+  forallb (fun c => nodupb (map p_name (stacked_props m (c_name c)))
+                    && nodupb (stacked_methods m (c_name c))) (classes m).
+
 Definition rulesb (r : reserved) (m : mm) : bool :=
   types_uniqueb m &&& (bases_existb m &&& (acyclicb m
   &&& (types_freeb r m &&& (members_uniqueb m &&& (members_freeb r m
   &&& (consts_uniqueb m &&& (consts_freeb r m &&& (funs_uniqueb m &&& (funs_freeb r m
   &&& (no_redeclareb m &&& (ctorb m &&& (shapesb m &&& (invs_uniqueb m
-  &&& (refsb m &&& patternsb m)))))))))))))).
+  &&& (refsb m &&& (patternsb m &&& stacked_uniqueb m))))))))))))))).
 
 (** Per-rule verdicts (diagnostics for the harness; the stacking-dependent rules are
     only evaluated on a well-founded hierarchy with unique type names). *)
@@ -477,4 +491,5 @@ Definition rule_verdicts (r : reserved) (m : mm) : list bool :=
     consts_uniqueb m; consts_freeb r m; funs_uniqueb m; funs_freeb r m;
     (if wf then no_redeclareb m else true); (if wf then ctorb m else true);
     shapesb m; (if wf then invs_uniqueb m else true);
-    (if wf then refsb m else true); patternsb m ].
+    (if wf then refsb m else true); patternsb m;
+    (if wf then stacked_uniqueb m else true) ].
